@@ -11,6 +11,7 @@ python3 tools/gen_optimize.py > /dev/null
 python3 tools/gen_loader_guards.py > /dev/null
 python3 tools/gen_handler_guards.py > /dev/null
 python3 tools/gen_param_guards.py > /dev/null
+python3 tools/gen_render.py > /dev/null
 python3 tools/gen_geo.py > /dev/null
 cd coq
 rm -f Makefile Makefile.conf .Makefile.d
